@@ -221,6 +221,16 @@ def run(ck):
                                replay={"engine": r["engine"], "setup": r["setup"], "stmt": r["stmt"]})
                 if st == "known":
                     ivo["known"] += 1
+            elif r.get("expect") == "err" and r["class"] != "err":
+                # a real evaluation error (no injection) that the statement must report
+                ivo["disagree"] += 1
+                ck.report("fault:real-error-lost/%s" % r["stmt"].split()[0].lower(),
+                          "`%s` (%s engine) fails by itself (a real evaluation error in one of its chunks) but Database::run returns %s%s" % (r["stmt"], r["engine"], r["class"], "" if r.get("tables_eq_pre", True) else " and the tables changed"),
+                          replay={"engine": r["engine"], "setup": r["setup"], "stmt": r["stmt"]})
+            elif r.get("expect") == "err" and not r.get("tables_eq_pre", True):
+                ivo["disagree"] += 1
+                ck.report("fault:failed-dml-changes-table/%s" % r["stmt"].split()[0].lower(), "`%s` failed by itself but the tables changed" % r["stmt"],
+                          replay={"engine": r["engine"], "setup": r["setup"], "stmt": r["stmt"]})
             elif not r.get("names_ok", True):
                 info["plan-shape-not-modelled"] += 1
         elif r["type"] == "skip":
@@ -229,7 +239,7 @@ def run(ck):
             m = r["model"]
             dist["ops"][r["op"]] += 1
             dist["kinds"][r["kind"]] += 1
-            dist["k"][min(r["k"], 3)] += 1
+            dist["k"]["0-2" if r["k"] < 3 else ("15-18" if 15 <= r["k"] <= 18 else "other")] += 1
             dist["model_answers"][m["raw"]] += 1
             if m.get("same"):
                 dist["content_compared"]["equal-to-fault-free-rows"] += 1
